@@ -21,6 +21,8 @@ type C16Case struct {
 	// Parsed: when set, the container is obtained by parsing this text (lenient spellings, see C02) instead
 	// of being built from Root; skipped if the library rejects the text
 	Parsed string `json:"parsed,omitempty"`
+	// Route != 0: built through the construction routes of BuildVariant (see C01Case)
+	Route int `json:"route,omitempty"`
 }
 
 func GenC16(t *rapid.T) *C16Case {
@@ -32,6 +34,7 @@ func GenC16(t *rapid.T) *C16Case {
 	if oneIn(t, 8, "share") {
 		c.Root, c.Share = withSharedChild(t, c.Root)
 	}
+	c.Route = genRoute(t, c.Share)
 	if oneIn(t, 4, "remutate") {
 		c.Muts = genNestedMuts(t)
 	}
@@ -101,7 +104,7 @@ func CheckC16(c *C16Case, st *Stats) error {
 	if root.K != KList && root.K != KObject {
 		return nil
 	}
-	orig := buildMaybeShared(root, c.Share)
+	orig := buildMaybeShared(root, c.Share, c.Route)
 	if c.Share {
 		st.Count("shared_instance")
 	}
